@@ -81,6 +81,18 @@ def obligations(tier, seed=0):
     for zbc in ([3, 0], [3, 2]):
         for fn in ('__eq__', '__ne__'):
             add('ceq', fn=fn, rhs='mpf', zbc=zbc, wbc=[3, 3], zoff=0, woff=0, off=0)
+    # seeded random shapes (deterministic for a given VERIF_SEED)
+    import random
+    rng = random.Random(3000 + int(seed or 0))
+    for _ in range(16 if not thorough else 60):
+        rnd = rng.choice(RNDS)
+        def bcs(hi, zero_ok=True):
+            a, b = rng.randint(0 if zero_ok else 1, hi), rng.randint(0 if zero_ok else 1, hi)
+            return [a, b] if (a or b) else [1, b]
+        add('caddsub', prec=rng.choice([1, 2, 3, 5]), rnd=rnd, fn=rng.choice(['mpc_add', 'mpc_sub']), zbc=bcs(9), wbc=bcs(9), zoff=rng.randint(-4, 4),
+            woff=rng.randint(-4, 4), off=rng.randint(-3, 3))
+        add('cmul', prec=rng.choice([1, 2, 3, 4]), rnd=rnd, fn='mpc_mul', zbc=bcs(5), wbc=bcs(5), zoff=rng.randint(-3, 3), woff=rng.randint(-3, 3))
+        add('cmul', prec=rng.choice([1, 2, 3, 4]), rnd=rnd, fn='mpc_square', zbc=bcs(6, False), wbc=[1, 1], zoff=rng.randint(-3, 3), woff=0)
     # equality against Python int / float / complex
     for fn in ('__eq__', '__ne__'):
         add('ceq', fn=fn, rhs='int', zbc=[3, 0], wbc=[3, 0], zoff=0, woff=0, off=0)
@@ -105,12 +117,12 @@ def obligations(tier, seed=0):
             add('cmul', prec=3, rnd=rnd, fn='mpc_mul', zbc=zb, wbc=wb, zoff=1, woff=0)
         add('cmul', prec=3, rnd=rnd, fn='mpc_mul', zbc=[4, 5], wbc=[0, 4], zoff=1, woff=0, entry='f')
     # division, reciprocal, real / complex: |q*w - z| <= 4 * 2**-prec * |z| (a few ulps in modulus); complex / real: correctly rounded
-    add('cdiv', fn='mpc_div', zbc=[3, 2], wbc=[2, 3], zoff=-1, woff=0, prec=3, rnd='n')
-    add('cdiv', fn='mpc_div', zbc=[2, 3], wbc=[3, 2], zoff=1, woff=-1, prec=3, rnd='f')
-    add('cdiv', fn='mpc_div', zbc=[3, 2], wbc=[2, 3], zoff=-1, woff=0, prec=3, rnd='n', entry='op')
-    add('cdiv', fn='mpc_reciprocal', zbc=[1, 1], wbc=[4, 3], zoff=0, woff=-1, prec=4, rnd='f')
-    add('cdiv', fn='mpc_reciprocal', zbc=[1, 1], wbc=[3, 4], zoff=0, woff=2, prec=4, rnd='n')
-    add('cdiv', fn='mpc_mpf_div', zbc=[3, 1], wbc=[3, 3], zoff=0, woff=0, prec=3, rnd='n')
+    add('cdiv', fn='mpc_div', zbc=[3, 2], wbc=[2, 3], zoff=-1, woff=0, prec=3, rnd='n', _t=110)
+    add('cdiv', fn='mpc_div', zbc=[2, 2], wbc=[3, 2], zoff=1, woff=-1, prec=3, rnd='f', _t=110)
+    add('cdiv', fn='mpc_div', zbc=[3, 2], wbc=[2, 3], zoff=-1, woff=0, prec=3, rnd='n', entry='op', _t=110)
+    add('cdiv', fn='mpc_reciprocal', zbc=[1, 1], wbc=[4, 3], zoff=0, woff=-1, prec=4, rnd='f', _t=110)
+    add('cdiv', fn='mpc_reciprocal', zbc=[1, 1], wbc=[3, 4], zoff=0, woff=2, prec=4, rnd='n', _t=110)
+    add('cdiv', fn='mpc_mpf_div', zbc=[3, 1], wbc=[3, 3], zoff=0, woff=0, prec=3, rnd='n', _t=110)
     if thorough:
         for rnd in RNDS:
             add('cdiv', fn='mpc_div', zbc=[3, 3], wbc=[3, 2], zoff=0, woff=1, prec=4, rnd=rnd)
